@@ -64,7 +64,7 @@ def bi_read(df, asof = None, what = -1):
     index_name = df.index.name
     if len(df):        
         if index_name is None:
-            df.index.name = 'index'
+            df = df.rename_axis('index') ## a new frame: without an as-of filter df is the caller's own store, whose index was being renamed in place
         gb = df.sort_values(_updated, kind = 'stable').groupby(df.index.name)
         res = gb.apply(_as_what(what)) ## since first and last return NON NAN VALUES, we need to override them
     else:
